@@ -712,7 +712,12 @@ class _Rx:
         if self.kind == "q":
             return _Match([_Tok(("q", iq, c)) for c in range(3)])
         return _Match([_Tok((w, iq, line.ids[1])) for w in ("mode_id", "thz", "cm1")])
-    match = search          # by the lemma the match starts at position 0 of the stripped line; on a raw line `match` would fail on the leading blanks:
+
+    def match(self, line, *a):
+        # by the lemma the match starts at position 0 of the STRIPPED line; on a raw line `match` fails on the leading blanks, which the stub does not decide
+        if isinstance(line, _Line) and not line.stripped:
+            raise core.OutsideSubset("pattern.match on an unstripped line")
+        return self.search(line, *a)
 
     def fullmatch(self, line, *a):
         raise core.OutsideSubset("fullmatch")
